@@ -22,7 +22,7 @@
    Definitions only; everything computes. *)
 From Coq Require Export List NArith Bool.
 Export ListNotations.
-Open Scope N_scope.
+Local Open Scope N_scope.
 
 (* what the derived caches (definition names, parent scopes) are keyed on *)
 Inductive keying :=
